@@ -95,12 +95,15 @@ Definition parse_properties (code : str) (from to : Z) : list css_property :=
   let fragment := py_slice code from to in
   props_go fragment from (mkPP None 0 from) [] (scan fragment).
 
-Definition get_css_section (code : str) (pos : Z) (properties : bool) : option css_section :=
-  match section_go pos [] (scan code) with
+(* get_css_section on a given callback sequence *)
+Definition section_events (code : str) (evs : list event) (pos : Z) (properties : bool) : option css_section :=
+  match section_go pos [] evs with
   | None => None
   | Some (a, b, ba, bb) =>
       Some (mkCS a b ba bb (if properties then Some (parse_properties code ba bb) else None))
   end.
+Definition get_css_section (code : str) (pos : Z) (properties : bool) : option css_section :=
+  section_events code (scan code) pos properties.
 
 (* -------- select_item_css *)
 Record select_item := mkSI { si_start : Z; si_end : Z; si_ranges : list range }.
@@ -135,8 +138,10 @@ Fixpoint next_go (code : str) (pos : Z) (pending : option rng3) (evs : list even
             end
         end
   end.
+Definition select_next_events (code : str) (evs : list event) (pos : Z) : option select_item :=
+  next_go code pos None evs.
 Definition select_next_item (code : str) (pos : Z) : option select_item :=
-  next_go code pos None (scan code).
+  select_next_events code (scan code) pos.
 
 (* ParseState of select_previous_item; type: None / Selector / PropertyName *)
 Record pvstate := mkPV {
@@ -158,8 +163,8 @@ Fixpoint prev_go (pos : Z) (st : pvstate) (evs : list event) : pvstate :=
         | BlockEnd => prev_go pos st r
         end
   end.
-Definition select_previous_item (code : str) (pos : Z) : option select_item :=
-  let st := prev_go pos (mkPV None (-1) (-1) (-1) (-1) (-1)) (scan code) in
+Definition select_previous_events (code : str) (evs : list event) (pos : Z) : option select_item :=
+  let st := prev_go pos (mkPV None (-1) (-1) (-1) (-1) (-1)) evs in
   match pv_type st with
   | Some false => Some (mkSI (pv_start st) (pv_end st) [(pv_start st, pv_end st)])
   | Some true =>
@@ -170,6 +175,8 @@ Definition select_previous_item (code : str) (pos : Z) : option select_item :=
       else Some (mkSI (pv_start st) (pv_end st) (rev (push [] (pv_start st, pv_end st))))
   | None => None
   end.
+Definition select_previous_item (code : str) (pos : Z) : option select_item :=
+  select_previous_events code (scan code) pos.
 
 Definition select_item_css (code : str) (pos : Z) (is_prev : bool) : option select_item :=
   if is_prev then select_previous_item code pos else select_next_item code pos.
